@@ -19,6 +19,8 @@ type MemDag struct {
 	mu    sync.Mutex
 	nodes map[string]format.Node
 	blobs map[string][]byte
+	// Offline makes every read fail (the network is unreachable).
+	Offline bool
 }
 
 func NewMemDag() *MemDag {
@@ -35,6 +37,12 @@ func (d *MemDag) Add(ctx context.Context, n format.Node) error {
 func (d *MemDag) Get(ctx context.Context, c cid.Cid) (format.Node, error) {
 	d.mu.Lock()
 	defer d.mu.Unlock()
+	if err := ctx.Err(); err != nil {
+		return nil, err
+	}
+	if d.Offline {
+		return nil, fmt.Errorf("ipld: offline")
+	}
 	n, ok := d.nodes[c.String()]
 	if !ok {
 		return nil, fmt.Errorf("ipld: could not find %s", c.String())
@@ -73,6 +81,12 @@ func CborGet(ctx context.Context, api coreiface.CoreAPI, id cid.Cid) (format.Nod
 	d := c.Dag().(*MemDag)
 	d.mu.Lock()
 	defer d.mu.Unlock()
+	if err := ctx.Err(); err != nil {
+		return nil, err
+	}
+	if d.Offline {
+		return nil, fmt.Errorf("ipld: offline")
+	}
 	b, ok := d.blobs[id.String()]
 	if !ok {
 		return nil, fmt.Errorf("ipld: could not find %s", id.String())
